@@ -377,8 +377,9 @@ int main(int argc, char **argv) {
         // scalar conversions
         check_scalar(ax, sd, gd, ax.x[0] - 1.0, true);
         check_scalar(ax, sd, gd, ax.x[0] - si, true);
-        for (size_t i = 0; i <= N; i++)
+        for (size_t i = 0; i <= N && !((i & 63) == 0 && vf::deadline_hit()); i++)
             for (double p : around(ax.x, i)) check_scalar(ax, sd, gd, p, true);
+        if (vf::deadline_hit()) break;
         // round trip (statement: coordinate of sample i converts back to i; i-1 for Less, i+1 for Greater)
         for (size_t i = 0; i <= N; i++) {
             double p = sd.positionAt(i);
@@ -430,7 +431,8 @@ int main(int argc, char **argv) {
         all.push_back(t.front() - 1.0); all.push_back(std::nextafter(t.front(), -INFINITY));
         for (size_t i = 0; i < t.size(); i++) for (double p : around(t, i)) all.push_back(p);
         all.push_back(t.back() + 1.0); all.push_back(t.back() + 1e6);
-        for (double p : all) check_scalar(ax, rd, gd, p, true);
+        { size_t n = 0; for (double p : all) { if ((++n & 255) == 0 && vf::deadline_hit()) break; check_scalar(ax, rd, gd, p, true); } }
+        if (vf::deadline_hit()) break;
         for (size_t i = 0; i < t.size(); i++) {
             OptIdx e = rd.indexOf(t[i], PositionMatch::Equal);
             vf::count("roundtrips");
